@@ -29,6 +29,11 @@
 (*            embedded instance(s) (EmbeddedInstance / EmbeddedObject      *)
 (*            qualifier in the class; the class default, if any, is the    *)
 (*            MOF text of an instance, as the compiler declares it)        *)
+(*     depth  0 for ordinary properties; 1: the embedded instance(s) have  *)
+(*            plain properties; 2: the embedded instance(s) themselves     *)
+(*            have an embedded instance property (MOF text nested in MOF   *)
+(*            text nested in MOF text)                                     *)
+(*            an embedded array may hold a NULL item (shape arraynull)     *)
 (*                                                                         *)
 (* Code-shaped model: CIMInstance.tomof() writes one initializer per       *)
 (* property the instance HAS (`P = NULL;` for a NULL value);               *)
@@ -44,8 +49,14 @@
 (*     embSkipsFalsy  embedded-object properties: the initializer is       *)
 (*                  compiled and assigned only `if pval:` - for NULL and   *)
 (*                  for the empty array `{ }` the copy keeps the class     *)
-(*                  default.  THIS IS THE UNCHANGED TREE (known finding);  *)
-(*                  the repaired design assigns NULL / the empty array.    *)
+(*                  default (repaired in the tree by commit 0e20684).      *)
+(*     embInnerResets  compile_embedded_value() of the INNER embedded      *)
+(*                  instance leaves parser.embedded_objects = None, so the *)
+(*                  outer embedded compile has no list to return: a value  *)
+(*                  of depth 2 is rejected                                 *)
+(*     embDropsNullItem  the NULL item of an embedded array is skipped by  *)
+(*                  the per-item compile loop: the array arrives shorter   *)
+(*                  THE LAST TWO ARE THE UNCHANGED TREE (known findings).  *)
 (* Non-embedded properties: the unchanged tree has all variants FALSE.     *)
 (***************************************************************************)
 EXTENDS Naturals, Sequences, FiniteSets, TLC
@@ -69,16 +80,21 @@ WellFormed(c) ==
   /\ c.dflt = "array" => c.arr
   /\ c.type = "reference" => ~c.arr       \* no arrays of references in MOF
   /\ c.shape \in ShapesOf(c.gives, c.arr)
-  /\ c.emb # "" => c.type = "string" /\ c.shape # "arraynull"
+  /\ c.emb # "" => c.type = "string"
+  /\ (c.emb = "") = (c.depth = 0)
+  /\ c.depth = 2 => c.shape \in {"scalar", "array", "arraynull"}
 
 Universe ==
   {c \in [type : CimTypes, arr : BOOLEAN, dflt : DfltKinds, gives : Gives,
-          shape : Shapes, emb : {"", "instance", "object"}] : WellFormed(c)}
+          shape : Shapes, emb : {"", "instance", "object"},
+          depth : 0..2] : WellFormed(c)}
 
 (*------------------------- abstract objects ------------------------------*)
 (* values: "NULL", "D" (the class default), "V" (the instance's own value; *)
-(* never the same token as the class default), "E" (the empty array, which *)
-(* Python takes for false).  An instance is a set of                       *)
+(* never the same token as the class default), "VN" (an array value with a *)
+(* NULL item), "E" (the empty array, which Python takes for false), "REJ"  *)
+(* (compiled side only: the compiler rejected the text).  An instance is a *)
+(* set of                                                                  *)
 (* [name, val]; besides the property under test "P" it has the anchor "K"  *)
 (* (MOF cannot express an instance without any property).                 *)
 ClassOf(c) ==          \* property name -> declared default
@@ -91,42 +107,59 @@ Orig(c) ==
           [] c.gives = "null"   -> {[name |-> "P", val |-> "NULL"]}
           [] OTHER              -> {[name |-> "P",
                                      val |-> IF c.shape = "empty" THEN "E"
-                                             ELSE "V"]})
+                                             ELSE IF c.shape = "arraynull"
+                                             THEN "VN" ELSE "V"]})
 
 Variant == [skipNull : BOOLEAN, fillAbsent : BOOLEAN, omitNull : BOOLEAN,
-            embSkipsFalsy : BOOLEAN]
+            embSkipsFalsy : BOOLEAN, embInnerResets : BOOLEAN,
+            embDropsNullItem : BOOLEAN]
 Repaired == [skipNull |-> FALSE, fillAbsent |-> FALSE, omitNull |-> FALSE,
-             embSkipsFalsy |-> FALSE]
-Pinned == [Repaired EXCEPT !.embSkipsFalsy = TRUE]     \* the unchanged tree
+             embSkipsFalsy |-> FALSE, embInnerResets |-> FALSE,
+             embDropsNullItem |-> FALSE]
+Pinned == [Repaired EXCEPT !.embInnerResets = TRUE,     \* the unchanged tree
+                           !.embDropsNullItem = TRUE]
 
 (* CIMInstance.tomof(): the set of initializers written *)
 Tomof(inst, v) ==
   {p \in inst : ~(v.omitNull /\ p.val = "NULL")}
 
 (* p_instanceDeclaration *)
-CompileProp(init, cls, emb, v) ==
+CompileProp(init, cls, c, v) ==
   LET copied == cls[init.name]                 \* pprop = cprop.copy()
   IN [name |-> init.name,
-      val  |-> IF init.name = "P" /\ emb # ""
+      val  |-> IF init.name = "P" /\ c.emb # ""
                THEN IF v.embSkipsFalsy /\ init.val \in {"NULL", "E"}
                     THEN copied                \* `if pval:` not entered
-                    ELSE init.val              \* compile_embedded_value
+                    ELSE IF init.val \in {"NULL", "E"} THEN init.val
+                    \* compile_embedded_value, once per level of nesting
+                    ELSE IF v.embInnerResets /\ c.depth = 2 THEN "REJ"
+                    ELSE IF v.embDropsNullItem /\ init.val = "VN" THEN "V"
+                    ELSE init.val
                ELSE IF v.skipNull /\ init.val = "NULL" THEN copied
                ELSE init.val]                  \* cimvalue(pval, cprop.type)
 
-Compile(text, cls, emb, v) ==
-  {CompileProp(i, cls, emb, v) : i \in text}
+Compile(text, cls, c, v) ==
+  {CompileProp(i, cls, c, v) : i \in text}
   \cup (IF v.fillAbsent
         THEN {[name |-> n, val |-> cls[n]] :
                 n \in DOMAIN cls \ {i.name : i \in text}}
         ELSE {})
 
 RoundTrips(c, v) ==
-  Compile(Tomof(Orig(c), v), ClassOf(c), c.emb, v) = Orig(c)
+  Compile(Tomof(Orig(c), v), ClassOf(c), c, v) = Orig(c)
 
-(* where the unchanged tree is known not to round-trip *)
-PinnedEmbCases ==
+(* where the variant embSkipsFalsy does not round-trip *)
+NullOrEmptyEmbCases ==
   {c \in Universe : /\ c.emb # ""
                     /\ \/ c.gives = "null" /\ c.dflt \in {"scalar", "array"}
                        \/ c.shape = "empty"}
+(* where the unchanged tree is known not to round-trip *)
+NestedEmbCases == {c \in Universe : c.depth = 2}
+NullItemEmbCases == {c \in Universe : c.emb # "" /\ c.shape = "arraynull"}
+PinnedEmbCases == NestedEmbCases \cup NullItemEmbCases
+(* position tag of a case in the driver's signatures *)
+CaseTag(c) == IF c \in NullOrEmptyEmbCases THEN "null-or-empty-initializer"
+              ELSE IF c \in NestedEmbCases THEN "nested"
+              ELSE IF c \in NullItemEmbCases THEN "null-item"
+              ELSE ""
 =============================================================================
